@@ -459,6 +459,38 @@ func ApplyOp(st *HState, op string) string {
 			path += "." + string(b)
 		}
 		return guard(func() string { return errStr(m.UnsetFields(path)) })
+	case p[0] == "upm" && strings.Count(op, ":") >= 2 && strings.Count(op, ":")%2 == 0:
+		// one UnsetFields call with several paths: upm:<id>:<hex path below id>:<id>:<hex>…
+		var paths []string
+		q := strings.Split(op, ":")
+		for k := 1; k+1 < len(q); k += 2 {
+			id, ok := num(q[k])
+			b, ok2 := UnHex(q[k+1])
+			if !ok || !ok2 {
+				return "bad-op"
+			}
+			path := strconv.Itoa(id)
+			if len(b) > 0 {
+				path += "." + string(b)
+			}
+			paths = append(paths, path)
+		}
+		return guard(func() string { return errStr(m.UnsetFields(paths...)) })
+	case p[0] == "usb" && len(p) == 3:
+		// the caller unsets a subfield on the composite object itself
+		id, ok := num(p[1])
+		b, ok2 := UnHex(p[2])
+		if !ok || !ok2 {
+			return "bad-op"
+		}
+		return guard(func() string {
+			c, isComp := m.GetField(id).(*field.Composite)
+			if !isComp {
+				return "err"
+			}
+			c.UnsetSubfield(string(b))
+			return "ok"
+		})
 	case p[0] == "mar" && len(p) == 3:
 		id, ok := num(p[1])
 		v, ok2 := ParseTree(p[2])
